@@ -91,7 +91,7 @@ Qed.
 Lemma changed_in_marks : forall s s' ms, uncovered s s' ms = [] ->
   forall k, In k (changed_keys s s') -> key_mem k ms = true.
 Proof.
-  intros s s' ms Hu k Hk. unfold changed_keys in Hk. apply ksort_u_In in Hk. apply filter_In in Hk as [_ Hc].
+  intros s s' ms Hu k Hk. unfold changed_keys in Hk. apply filter_In in Hk as [_ Hc].
   destruct (key_mem k ms) eqn:M; [reflexivity|].
   rewrite (uncovered_nil _ _ _ Hu k M) in Hc.
   assert (E : nlist_eqb (content s k) (content s k) = true) by (apply nlist_eqb_eq; reflexivity).
@@ -253,8 +253,9 @@ Fixpoint prog_ok (s : state) (p : list api) : Prop :=
 Lemma promising_ends_with_compute : forall a, promises a = true ->
   exists bs, batches_of a = bs ++ [[MCompute]].
 Proof.
-  intros a Hp. destruct a as [t|o|o| |os]; try discriminate.
+  intros a Hp. destruct a as [t|o|os1|o| |os]; try discriminate.
   - exists [[MOp o]]. reflexivity.
+  - exists [map MOp os1]. reflexivity.
   - exists []. reflexivity.
   - exists (map (fun o => [MOp o]) os). reflexivity.
 Qed.
